@@ -266,6 +266,57 @@ fn wide(rng: &mut Rng) -> String {
     }
 }
 
+/// Deterministic documents, one per index: (a) a multi-byte character straddling every byte offset around
+/// 4096·2^k of the PRINTED text (anything that prints through a fixed-size buffer cuts it there), alone and
+/// inside arrays / objects; (b) objects with a repeated member name — the later member wins, as in every JSON
+/// reader here — at every width from 2 to 1000 members, the two occurrences adjacent, far apart, first/last,
+/// spelled differently, three times.
+const SWEEP_CASES: u64 = 6 * 13 * 3 * 2 + 16 * 8;
+
+fn sweep_text(j: u64) -> Option<String> {
+    let boundary = 6 * 13 * 3 * 2;
+    if j < boundary {
+        let total = [4096usize, 8192, 16384, 32768, 65536, 24576][(j % 6) as usize];
+        let delta = ((j / 6) % 13) as i64 - 6;
+        let ch = ["é", "日", "😀"][((j / 78) % 3) as usize];
+        let framed = (j / 234) % 2 == 1;
+        let k = (total as i64 + delta) as usize;
+        return Some(if framed {
+            // the character lands near the boundary inside an object inside an array
+            let head = "[1,{\"k\":\"";
+            format!("[1, {{\"k\": \"{}{} tail {}\"}}, \"{}\"]", "a".repeat(k.saturating_sub(head.len())), ch, ch, ch.repeat(5))
+        } else {
+            format!("\"{}{} and more {}\"", "a".repeat(k.saturating_sub(1)), ch, ch.repeat(3))
+        });
+    }
+    let j = j - boundary;
+    if j >= 16 * 8 {
+        return None;
+    }
+    let n = [2usize, 3, 5, 10, 20, 30, 31, 40, 41, 48, 64, 100, 200, 500, 1000, 33][(j % 16) as usize];
+    let variant = j / 16;
+    let (p, q) = match variant % 4 {
+        0 => (0, n - 1),
+        1 => (0, (2).min(n - 1)),
+        2 => (n / 2, (n / 2 + 1).min(n - 1)),
+        _ => (n - 2, n - 1),
+    };
+    let respell = variant >= 4;
+    let mut members = vec![];
+    for i in 0..n {
+        if i == p {
+            members.push("\"dup\": \"first\"".to_string());
+        } else if i == q {
+            members.push(format!("\"{}\": \"last\"", if respell { "\\u0064up" } else { "dup" }));
+        } else if variant % 4 == 2 && i == 0 && n > 4 {
+            members.push("\"dup\": \"zeroth\"".to_string());
+        } else {
+            members.push(format!("\"k{:03}\": {}", (i * 37) % 1000, i));
+        }
+    }
+    Some(format!("{{{}}}", members.join(", ")))
+}
+
 pub fn run(args: &Args) {
     let mut rep = Report::new("C08");
     let path = args.kv.get("records").cloned().expect("--records");
@@ -273,12 +324,14 @@ pub fn run(args: &Args) {
     let ident = jmespath::compile("@").unwrap();
     for i in 0..args.n {
         let mut rng = Rng::derive(args.seed, args.shard + 7000, i);
-        let text = match rng.below(40) {
+        let swept = if i * args.shards + args.shard < SWEEP_CASES { sweep_text(i * args.shards + args.shard) } else { None };
+        let is_sweep = swept.is_some();
+        let text = if let Some(t) = swept { t } else { match rng.below(40) {
             0 => { let d = 120 + rng.below(12); deep(&mut rng, d) }
             1 => format!("{}{}{}", ws(&mut rng), numeral(&mut rng), ws(&mut rng)),
             2 if i % 8 == 0 => wide(&mut rng),
             _ => format!("{}{}{}", ws(&mut rng), jtext(&mut rng, 4), ws(&mut rng)),
-        };
+        } };
         rep.evaluations += 1;
         let parsed = guarded(|| Variable::from_json(&text));
         let var = match parsed {
@@ -312,6 +365,17 @@ pub fn run(args: &Args) {
                 continue;
             }
         };
+        if is_sweep {
+            // these texts hold only strings and small integers: the value is exactly what serde_json reads from the text
+            match serde_json::from_str::<Value>(&text) {
+                Ok(direct) if val_identical(&direct, &v1) => rep.count("sweep_document_read_as_serde_json_reads_it"),
+                other => rep.violation(
+                    "C08/document-read-differently-from-serde_json",
+                    json!({"text": text.chars().take(300).collect::<String>(), "bytes": text.len(), "serde_json": format!("{:?}", other.map(|v| v.to_string().chars().take(200).collect::<String>())),
+                           "from_json": v1.to_string().chars().take(200).collect::<String>()}),
+                ),
+            }
+        }
         match guarded(|| Variable::from_json(&out)) {
             Ok(Ok(v2)) => match value_of(&v2) {
                 Ok(v2j) if val_identical(&v1, &v2j) => rep.count("print_reparse_identical"),
